@@ -1073,6 +1073,7 @@ func par4(c *Ctx) {
 	// matcher constructions
 	fn := p.atom
 	c.Mark(fn)
+	optKinds := map[string]bool{}
 	for _, call := range ir.Calls(fn) {
 		cv, ok := call.(*ssa.Call)
 		if !ok {
@@ -1103,6 +1104,38 @@ func par4(c *Ctx) {
 			}
 		})
 		c.Check(good, fmt.Sprintf("%s:%s[%s]", Q(fn), f.Name(), kind), cv.Pos(), "built only when no `--` precedes in the spec; otherwise a spec error", "an option matcher can be built after `--` in the spec")
+		for _, k := range strings.Split(kind, "|") {
+			optKinds[k] = true
+		}
+	}
+	// an option token is never accepted without the flag having been tested: from the consumption of
+	// such a token no normal return is reachable around the tests of the flag
+	cut := map[ir.Edge]bool{}
+	ir.Instrs(fn, func(in ssa.Instruction) {
+		if v, ok := in.(ssa.Value); ok {
+			if _, fld, isF := ir.FieldLoad(v); isF && fld == "rejectOptions" {
+				for _, want := range []bool{true, false} {
+					for _, e := range ir.EdgesWhere(fn, v, want) {
+						cut[ir.Edge{From: e.From, To: e.To}] = true
+					}
+				}
+			}
+		}
+	})
+	for _, f := range openingFounds(p) {
+		if !optKinds[f.kind] || f.cond == nil {
+			continue
+		}
+		good := true
+		for _, e := range ir.EdgesWhere(fn, f.cond, true) {
+			reach := ir.Reach(e.To, nil, cut)
+			for _, r := range ir.Returns(fn) {
+				if reach[r.Block()] {
+					good = false
+				}
+			}
+		}
+		c.Check(good, fmt.Sprintf("%s:flag-tested[%s]", Q(fn), f.kind), f.cond.Pos(), "an option token is accepted only after the no-more-options flag has been tested", "an option token of this kind can be accepted without the no-more-options flag being tested: an option after `--` compiles")
 	}
 }
 
